@@ -10,3 +10,9 @@ open UtilModel UtilModel.Routine
 #print axioms UtilModel.Routine.exit_cb_once
 #print axioms UtilModel.Routine.record_once
 #print axioms UtilModel.Routine.waitExited_current
+#print axioms UtilModel.Routine.C14ha_obs
+#print axioms UtilModel.Routine.timer_keeps_running
+#print axioms UtilModel.Routine.Backoff.never_stops
+#print axioms UtilModel.Routine.Backoff.defaults
+#print axioms UtilModel.Routine.Backoff.constant_interval
+#print axioms UtilModel.Routine.Backoff.C14bo_obs
